@@ -33,8 +33,8 @@ type batCase struct {
 
 func opStr(o op) string {
 	switch o.Kind {
-	case "batch":
-		return fmt.Sprintf("batch(k%d)", o.Key)
+	case "batch", "racebatch":
+		return fmt.Sprintf("%s(k%d)", o.Kind, o.Key)
 	case "burst":
 		return fmt.Sprintf("burst(k%d x%d)", o.Key, o.N)
 	case "sub":
@@ -91,6 +91,7 @@ type delivery struct {
 }
 
 type outcome struct {
+	raced           bool
 	suppressed      bool
 	nsubs           int
 	saturated       bool // a subscriber had more than the internal buffer outstanding
@@ -113,6 +114,8 @@ type harness struct {
 	out                        outcome
 	wg                         sync.WaitGroup
 	caseStr                    string
+	raceOld                    *delivery
+	closeCalls                 int
 	subsMu                     sync.Mutex
 	batchedAt                  map[int]time.Time
 }
@@ -203,6 +206,29 @@ func (h *harness) issue(o op) {
 			h.pending[o.Key] = delivery{val: h.nextVal, due: time.Now().Add(h.interval)}
 		}
 		h.b.Batch(o.Key, h.nextVal)
+	case "racebatch":
+		// Re-batch a key at the very instant its pending value becomes due, without settling in between: the
+		// processor's wake-up for the old value and the replacing Batch race. The old value is then either
+		// delivered (at its due instant) or suppressed - both are fine - and the new one is due one interval later.
+		p, ok := h.pending[o.Key]
+		witness := false // a prompt subscriber that will show whether the old value was delivered
+		for _, s := range h.subs {
+			s.mu.Lock()
+			if s.style == "prompt" && !s.cancelled && !s.dead && !s.maybeDead && s.subscribed {
+				witness = true
+			}
+			s.mu.Unlock()
+		}
+		if !ok || !witness || h.closeIssued || h.risky() || h.everLoose || !p.due.After(time.Now()) {
+			h.issue(op{Kind: "batch", Key: o.Key})
+			return
+		}
+		time.Sleep(p.due.Sub(time.Now()))
+		delete(h.pending, o.Key)
+		h.advanceModel() // everything else that is due now
+		h.raceOld = &p
+		h.out.raced = true
+		h.issue(op{Kind: "batch", Key: o.Key})
 	case "sub":
 		ctx, cancel := context.WithCancel(context.Background())
 		s := &subscriber{ctx: ctx, cancel: cancel, ch: make(chan int, o.Cap), style: o.Style, subAt: time.Now(), firstIdx: len(h.log), dead: h.closeReturned, maybeDead: h.closeIssued, stop: make(chan struct{})}
@@ -299,10 +325,14 @@ func (h *harness) issue(o op) {
 		if d > 0 {
 			h.sleep(d)
 		}
+	case "close2":
+		h.issue(op{Kind: "close"})
+		h.issue(op{Kind: "close"})
 	case "close":
-		if h.closeIssued {
+		if h.closeCalls >= 3 {
 			return
 		}
+		h.closeCalls++
 		h.closeIssued = true
 		for _, s := range h.subs {
 			s.mu.Lock()
@@ -385,6 +415,25 @@ func (h *harness) saturatedPresent() bool {
 }
 
 func (h *harness) check(step string) bool {
+	if h.raceOld != nil {
+		// was the value that became due at the instant of the racing Batch delivered or suppressed?
+		delivered := false
+		for _, s := range h.subs {
+			if s.style != "prompt" {
+				continue
+			}
+			for _, g := range s.got() {
+				if g.val == h.raceOld.val {
+					delivered = true
+				}
+			}
+		}
+		if delivered {
+			h.log = append(h.log, *h.raceOld)
+			h.out.deliveries++
+		}
+		h.raceOld = nil
+	}
 	h.advanceModel()
 	if h.saturatedPresent() {
 		h.loose, h.everLoose = true, true
@@ -629,7 +678,7 @@ func runBat(t *testing.T, c batCase) (out outcome, err error) {
 				}
 			}
 			h.issue(op{Kind: "batch", Key: 1}) // still pending at Close: dropped
-			h.issue(op{Kind: "close"})
+			h.issue(op{Kind: "close2"})
 		}
 		if !h.settle() {
 			return
@@ -683,8 +732,10 @@ func genCase(rt *rapid.T) batCase {
 	n := rapid.IntRange(1, 24).Draw(rt, "nops")
 	for i := 0; i < n; i++ {
 		switch k := rapid.IntRange(0, 19).Draw(rt, "kind"); {
-		case k <= 5:
+		case k <= 4:
 			c.Ops = append(c.Ops, op{Kind: "batch", Key: rapid.IntRange(0, 2).Draw(rt, "key")})
+		case k == 5:
+			c.Ops = append(c.Ops, op{Kind: "racebatch", Key: rapid.IntRange(0, 2).Draw(rt, "key")})
 		case k <= 9:
 			c.Ops = append(c.Ops, op{Kind: "adv", Adv: rapid.SampledFrom([]string{"half", "interval", "next", "2x", "1ms"}).Draw(rt, "adv")})
 		case k <= 12:
@@ -698,7 +749,7 @@ func genCase(rt *rapid.T) batCase {
 		case k <= 17:
 			c.Ops = append(c.Ops, op{Kind: "cancel", I: rapid.IntRange(0, 4).Draw(rt, "i")})
 		case k == 18 && rapid.IntRange(0, 3).Draw(rt, "reallyClose") == 0:
-			c.Ops = append(c.Ops, op{Kind: "close"})
+			c.Ops = append(c.Ops, op{Kind: rapid.SampledFrom([]string{"close", "close2"}).Draw(rt, "closeKind")})
 		default:
 			c.Ops = append(c.Ops, op{Kind: "batch", Key: rapid.IntRange(0, 2).Draw(rt, "key")})
 		}
@@ -715,7 +766,7 @@ func TestBatcher(t *testing.T) {
 			rt.Fatalf("C10 batcher violated: %v\ncase: %s", err, c)
 		}
 		var cls []string
-		for name, b := range map[string]bool{"suppressed-value": out.suppressed, "subscriber>buffer": out.saturated, "depart-with-full-buffer": out.departSaturated, "mutex-parked-at-settle": out.mutexParked} {
+		for name, b := range map[string]bool{"suppressed-value": out.suppressed, "subscriber>buffer": out.saturated, "depart-with-full-buffer": out.departSaturated, "mutex-parked-at-settle": out.mutexParked, "rebatch-at-due-instant": out.raced} {
 			if b {
 				cls = append(cls, name)
 			}
